@@ -7,7 +7,7 @@
   repetition, then what each of them inherits, skipping what is already there); the precedence
   list of an instance (`StandardObject.Hierarchy()`, what typep and type-of consult) is the class,
   the inherit list, the base class `standard-object` and `t`. `subtypep` consults
-  `Class.Inherits` (the inherit list, and — repo-patches/C16/0012 — the base class and `t`).
+  `FindClass` and `Class.Inherits` (the inherit list).
   After a redefinition every class that inherits from the redefined class is merged again
   (`classChanged`), so the lists are always those of the *current* definitions: the model computes
   them on demand from the direct superclasses of the current definitions.
@@ -72,16 +72,20 @@ def typeOf (c : Nat) : Ty := .user c
 /-- `(typep x σ)` for an instance of the defined class `c`: typep.go walks `Hierarchy()` -/
 def typep (reg : Reg) (c : Nat) (σ : Ty) : Bool := (precedence reg c).contains σ
 
+/-- the symbol designates a class of the registry (`FindClass`). `standard-object` and `t` head no
+    class of slip's registry (`(find-class 'standard-object nil)` is nil): they only appear in
+    precedence lists, so typep knows them and subtypep does not ("type symbols known to the class
+    registry" are the user defined classes and the built-in classes such as fixnum). -/
 def tyDefined (reg : Reg) : Ty → Bool
   | .user c => defined reg c
-  | _ => true
+  | .alien => true
+  | .base => false
+  | .top => false
 
-/-- `Class.Inherits` of a user defined class -/
+/-- `Class.Inherits` of a user defined class: the inherit list -/
 def inherits (reg : Reg) (c : Nat) : Ty → Bool
   | .user d => (inherit reg (fuelOf reg) c).contains d
-  | .base => true
-  | .top => true
-  | .alien => false
+  | _ => false
 
 /-- `(subtypep a b)`: both designate classes and `a` is `b` or inherits from it (subtypep.go) -/
 def subtypep (reg : Reg) (a b : Ty) : Bool :=
@@ -89,9 +93,7 @@ def subtypep (reg : Reg) (a b : Ty) : Bool :=
   (a == b ||
    match a with
    | .user c => inherits reg c b
-   | .base => b == .top
-   | .alien => b == .top
-   | .top => false)
+   | _ => false)
 
 /-! ### histories -/
 
